@@ -144,17 +144,18 @@ var gridM = []int64{20, 100}
 var gridF = []int64{1, 5}
 var gridT = []int{2, 3, 10}
 var gridS = []int{2, 3, 10}
-var gridG = []float64{2, 10}
-var gridR = []float64{0, 2}
+
+// (TierGrowth, ReclaimDeletesWeight): the full 2x2 grid of the integer growth
+// values, and the non-integer / unit growth values with one weight each
+// (growth only enters the budget, the weight only the roster score)
+var gridGR = [][2]float64{{2, 0}, {2, 2}, {10, 0}, {10, 2}, {1.5, 2}, {2.5, 0}, {1, 2}}
 
 func innerOpts(M, F int64) []opts {
 	var out []opts
 	for _, t := range gridT {
 		for _, s := range gridS {
-			for _, g := range gridG {
-				for _, r := range gridR {
-					out = append(out, opts{M: M, F: F, T: t, S: s, G: g, R: r})
-				}
+			for _, gr := range gridGR {
+				out = append(out, opts{M: M, F: F, T: t, S: s, G: gr[0], R: gr[1]})
 			}
 		}
 	}
@@ -501,6 +502,69 @@ func refBudget(totalSize, first int64, o opts) int {
 	return n
 }
 
+// ---------------------------------------------------------------- CalcBudget itself
+
+var budFirst = []int64{1, 2, 3, 5, 7, 2000}
+var budT = []int{1, 2, 3, 10}
+var budG = []float64{1, 1.25, 1.5, 2, 2.5, 3, 10}
+
+func budgetTotal(string) int64 { return int64(len(budFirst) * len(budT) * len(budG)) }
+
+// budgetEval: for one (first tier size, MaxSegmentsPerTier, TierGrowth), CalcBudget
+// over every total 0..400*first-ish must be the staircase of the options, and for
+// a growth factor above 1 the staircase must actually grow: 16 full first tiers of
+// data need fewer than 16 tiers' worth of segments.
+func budgetEval(idx int64, _ string) *explore.Result {
+	i := int(idx)
+	g := budG[i%len(budG)]
+	i /= len(budG)
+	t := budT[i%len(budT)]
+	i /= len(budT)
+	first := budFirst[i]
+	o := opts{M: 1 << 30, F: first, T: t, S: 2, G: g}
+	mo := o.options()
+	res := &explore.Result{Outcome: fmt.Sprintf("first=%d,T=%d,G=%g", first, t, g)}
+	var totals []int64
+	for k := int64(0); k <= 64; k++ {
+		totals = append(totals, k, k*first, k*first+1, k*first*int64(t), k*first*int64(t)-1, k*k*first*int64(t)+k)
+	}
+	last := -1
+	sort.Slice(totals, func(a, b int) bool { return totals[a] < totals[b] })
+	for _, total := range totals {
+		if total < 0 {
+			continue
+		}
+		res.Evals++
+		got := mergeplan.CalcBudget(total, first, mo)
+		want := refBudget(total, first, o)
+		if got != want {
+			res.Key = fmt.Sprintf("budget:total=%d,firstTier=%d,PerTier=%d,Growth=%g:not-the-staircase", total, first, t, g)
+			res.Failure = fmt.Sprintf("CalcBudget(total=%d, firstTier=%d, MaxSegmentsPerTier=%d, TierGrowth=%g) = %d but the staircase the options describe needs %d segments", total, first, t, g, got, want)
+			return res
+		}
+		if got < last {
+			res.Key = fmt.Sprintf("budget:total=%d,firstTier=%d,PerTier=%d,Growth=%g:not-monotone", total, first, t, g)
+			res.Failure = fmt.Sprintf("CalcBudget(total=%d, firstTier=%d, MaxSegmentsPerTier=%d, TierGrowth=%g) = %d is smaller than the budget %d of a smaller total", total, first, t, g, got, last)
+			return res
+		}
+		last = got
+		if got > 0 {
+			res.Nontrivial++
+		}
+	}
+	if g > 1 {
+		res.Evals++
+		total := 16 * int64(t) * first
+		got := mergeplan.CalcBudget(total, first, mo)
+		if got >= 16*t {
+			res.Key = fmt.Sprintf("budget:firstTier=%d,Growth=%g:tiers-never-grow", first, g)
+			res.Failure = fmt.Sprintf("CalcBudget(total=%d, firstTier=%d, MaxSegmentsPerTier=%d, TierGrowth=%g) = %d = total/firstTier: with a growth factor of %g every tier still has the size of the first one, the budget is linear in the data size instead of logarithmic (segments of the first tier size are never merged however many arrive)", total, first, t, g, got, g)
+			return res
+		}
+	}
+	return res
+}
+
 // ---------------------------------------------------------------- (b) explicit-state search
 
 type state []pair // sorted by (live, full)
@@ -565,6 +629,8 @@ var bfsOpts = []opts{
 	{M: 20, F: 1, T: 2, S: 2, G: 2, R: 2},
 	{M: 20, F: 5, T: 3, S: 3, G: 2, R: 0},
 	{M: 20, F: 1, T: 3, S: 10, G: 10, R: 2},
+	{M: 20, F: 2, T: 2, S: 2, G: 1.5, R: 2}, // non-integer growth: tiers 2, 3, 4, 6, 9, ...
+	{M: 20, F: 1, T: 3, S: 3, G: 2.5, R: 0}, // tiers 1, 2, 5, 12, ...
 	{M: 20, F: 5, T: 10, S: 10, G: 10, R: 2},
 	{M: 20, F: 1, T: 2, S: 3, G: 10, R: 0},
 }
@@ -672,7 +738,7 @@ func bfsTotal(param string) int64 {
 	if param == "thorough" {
 		return int64(len(bfsOpts))
 	}
-	return 3
+	return 5
 }
 
 var bfsBudget time.Duration // per option set; 0 = unlimited
@@ -813,6 +879,7 @@ func main() {
 		return planEval(idx, param)
 	})
 	explore.RegisterEnum("c19-bfs", bfsTotal, bfsEval)
+	explore.RegisterEnum("c19-budget", budgetTotal, budgetEval)
 	if os.Getenv("VERIF_WORKER") != "" {
 		go func() { // a planner spinning without size queries would hang the worker: die instead, the driver isolates the case
 			for {
@@ -836,7 +903,7 @@ func main() {
 	for _, s := range spaces(param) {
 		alph = append(alph, fmt.Sprintf("Max=%d,Floor=%d: %s (%d lists)", s.M, s.F, pairsString(s.alpha), s.n))
 	}
-	c.Rule = fmt.Sprintf("(a) every multiset of at most %d segments over the (full/live) alphabet of each (MaxSegmentSize, FloorSegmentSize) in {20,100}x{1,5} [%s] x MaxSegmentsPerTier {2,3,10} x SegmentsPerMergeTask {2,3,10} x TierGrowth {2,10} x ReclaimDeletesWeight {0,2}; each (list, options) is a distinct input, non-trivial when the plan has at least one task. "+
+	c.Rule = fmt.Sprintf("(a) every multiset of at most %d segments over the (full/live) alphabet of each (MaxSegmentSize, FloorSegmentSize) in {20,100}x{1,5} [%s] x MaxSegmentsPerTier {2,3,10} x SegmentsPerMergeTask {2,3,10} x (TierGrowth, ReclaimDeletesWeight) in {2,10}x{0,2} + {(1.5,2),(2.5,0),(1,2)}; each (list, options) is a distinct input, non-trivial when the plan has at least one task. "+
 		"(b) breadth-first search to depth %d from the empty index for %d option sets with MaxSegmentSize 20: states are sorted multisets of (full, live); arrival of a segment of 1 or 2, deletion of one live unit of one segment, execution of the whole plan; every state is distinct (visited set), non-trivial when its plan is not empty",
 		maxLen(param), strings.Join(alph, "; "), bfsDepth(param), bfsTotal(param))
 	c.Explanation = "bounded-exhaustive enumeration of mergeplan.Plan inputs and an explicit-state search over size-only histories; oracle: membership/disjointness by segment identity, sums and comparisons of the sizes (sum of live <= MaxSegmentSize, no member with live above MaxSegmentSize/2), equality of repeated / reversed calls, termination by a cap on the planner's size queries, and at every plan fixpoint #eligible <= max(1, staircase budget) with a reference staircase written from the option documentation (CalcBudget must agree with it)"
@@ -848,6 +915,7 @@ func main() {
 	}
 	st := explore.Enumerate(explore.EnumConfig{Name: "c19-plan", Param: param, Budget: c.PickD(40*time.Second, 8*time.Minute), CrashIsViolation: true})
 	c.AddEnum(st)
+	c.AddEnum(explore.Enumerate(explore.EnumConfig{Name: "c19-budget", Param: param, InProc: true}))
 	bfsBudget = c.PickD(40*time.Second, 6*time.Minute) / time.Duration(bfsTotal(param))
 	sb := explore.Enumerate(explore.EnumConfig{Name: "c19-bfs", Param: param, InProc: true, Chunk: 1})
 	c.AddEnum(sb)
